@@ -123,18 +123,30 @@ def run_check(mod, tier, seed, only=None, jobs=None):
     violations = []
     known_hits = {}
     disagreements = []
+    MAX_TRIES = 6  # witnesses of the same finding key replayed until one reproduces
     for case, f in failures:
         key = mod.finding_key(case, f)
         skey = json.dumps(key, sort_keys=True)
-        if skey in seen_keys:
-            seen_keys[skey]["count"] += 1
-            continue
+        prev = seen_keys.get(skey)
+        if prev is not None:
+            prev["count"] += 1
+            if prev["replay"].get("reproduced") or prev["tries"] >= MAX_TRIES:
+                continue
         try:
             rep = mod.replay(case, f)
         except Exception as e:  # noqa
             rep = {"reproduced": False, "detail": f"replay crashed: {type(e).__name__}: {e}"}
-        entry = {"key": key, "case": case, "failure": f, "replay": rep, "count": 1}
-        seen_keys[skey] = entry
+        if prev is None:
+            entry = {"key": key, "case": case, "failure": f, "replay": rep, "count": 1, "tries": 1}
+            seen_keys[skey] = entry
+        else:
+            prev["tries"] += 1
+            if rep.get("reproduced"):
+                prev.update({"case": case, "failure": f, "replay": rep})
+            entry = prev
+    for skey, entry in seen_keys.items():
+        rep = entry["replay"]
+        key = entry["key"]
         if not rep.get("reproduced"):
             disagreements.append(entry)
             continue
@@ -148,8 +160,6 @@ def run_check(mod, tier, seed, only=None, jobs=None):
         else:
             violations.append(entry)
 
-    # a witness that did not reproduce is only a problem if no other witness of
-    # the same label reproduced
     # a witness that did not reproduce is tolerated only when another witness of the
     # same case and label did
     reproduced = {(json.dumps(e["case"], sort_keys=True), e["failure"]["label"]) for e in seen_keys.values() if e["replay"].get("reproduced")}
